@@ -35,7 +35,7 @@ func NewH264Depacketizer(meta *codec.VideoMeta, w codec.FrameWriter) Depacketize
 
 func (h264dp *h264Depacketizer) Depacketize(packet *Packet) (err error) {
 	payload := packet.Payload()
-	if len(payload) < 3 {
+	if len(payload) < 1 { // 最短的 NAL 只有 1 字节头（end of sequence）；AUD 为 2 字节
 		return
 	}
 
@@ -120,6 +120,9 @@ func (h264dp *h264Depacketizer) depacketizeStapa(packet *Packet) (err error) {
 
 func (h264dp *h264Depacketizer) depacketizeFuA(packet *Packet) (err error) {
 	payload := packet.Payload()
+	if len(payload) < 2 { // FU indicator + FU header
+		return
+	}
 	header := payload[0]
 
 	// 	0                   1                   2                   3
